@@ -33,6 +33,8 @@ func runC05(c *Ctx) {
 	r, a := c.R, c.A
 	r.Rule("R1", "in every function that dispatches on the background or foreground set, an awaited dispatch of the same line on the internal set dominates both")
 	r.Rule("R2", "every state handler (stHandlers table) is registered only through the internal-set registration wrapper")
+	r.Rule("R4", "every dispatch of a server line is a plain call in the single consumer goroutine (no second, concurrent dispatcher can run user handlers while later lines are applied)")
+	r.Rule("R5", "each handler-set dispatch iterates over a snapshot freshly built under the set's lock (a cached or stale list would skip a state handler registered since)")
 	r.Rule("R3", "every mutating state.Tracker call in package client lies in a function reachable only by awaited edges from internal-table handlers or lifecycle functions (Enable/DisableStateTracking, connect initialisation)")
 
 	// R1
@@ -186,6 +188,16 @@ func runC05(c *Ctx) {
 	}
 	r.Floor("R3", "mutating tracker call sites", nm, 30)
 	r.Sites += nm
+
+	// R4 / R5 (shared with C03.R3 and C04.R3)
+	disp, recvs := c.inboundConsumers()
+	if len(disp) == 1 {
+		c.connDispatchRule("R4", disp[0], recvs)
+	} else {
+		r.Exactly("R4", "dispatching consumer goroutine of the inbound queue", len(disp), 1)
+	}
+	ls := c.ComputeLocksets(c.clientFuncs())
+	c.snapshotRule("R5", ls, "client.hSet.RWMutex")
 }
 
 // rangeValuesOnlyTo: every value extracted from the range iterator flows
@@ -333,6 +345,24 @@ func (c *Ctx) handlerFrameRule(rule string) {
 		})
 	}
 	r.Floor(rule, "store of the default recovery hook in NewConfig", map[bool]int{true: 1}[found], 1)
+	if hook := c.Func(c.Client, "(*Conn).LogPanic"); hook != nil {
+		// no interface method is invoked on the recovered value
+		bad := ""
+		funcInstrs(hook, func(in ssa.Instruction) {
+			cs, ok := in.(ssa.CallInstruction)
+			if !ok || !cs.Common().IsInvoke() {
+				return
+			}
+			for _, o := range c.originsThroughAsserts(cs.Common().Value) {
+				if call, ok := o.(*ssa.Call); ok {
+					if b, ok := call.Call.Value.(*ssa.Builtin); ok && b.Name() == "recover" {
+						bad = c.InstrPos(in)
+					}
+				}
+			}
+		})
+		r.Add(rule, "hook-no-callback", c.Pos(hook.Pos()), c.FuncKey(hook), "the default hook does not invoke methods of the recovered value itself (a panicking Error()/String() would escape the hook)", bad == "", "method of the recovered value invoked at "+bad)
+	}
 }
 
 func runC16(c *Ctx) {
@@ -395,6 +425,15 @@ func runC16(c *Ctx) {
 		r.Add("R3", "bg-dispatch:"+c.FuncKey(cs.Parent()), c.InstrPos(cs), c.FuncKey(cs.Parent()), "background dispatch is a detached go", ok, why)
 	}
 	r.Floor("R3", "background dispatch sites", nb, 1)
+	// the spawner must not block on anything the background goroutine controls
+	nBlock := 0
+	for _, op := range ChanOps(a.ConnDispatch) {
+		if op.Kind != "close" && op.Blocking {
+			nBlock++
+			r.Add("R3", "spawner-blocks:"+op.Kind, c.InstrPos(op.In), c.FuncKey(a.ConnDispatch), "Conn.dispatch performs no blocking channel operation (a slot/semaphore held by a stuck background handler would stall foreground delivery)", false, op.Kind+" on "+op.Chan.Name())
+		}
+	}
+	r.Add("R3", "spawner-does-not-block", c.Pos(a.ConnDispatch.Pos()), c.FuncKey(a.ConnDispatch), "Conn.dispatch has no blocking channel operations", nBlock == 0, fmt.Sprintf("%d blocking channel operations", nBlock))
 }
 
 var _ = types.Typ
